@@ -256,7 +256,38 @@ def trailing_family(mode, version, e):
                         mainp = ("Seq", ("Call", "g"), e.tag(62), tuple(body[:1]) + tuple(body[1:]))
                         mainp = _replace_bare_returns(mainp)
                         out.append(("sub:trail-main:%s:%s" % (sname, "-".join(combo)), prog(mode, mainp, {}, {"g": g}), {}))
+    # routines whose LAST expression is a loop whose body always returns: the loop can run zero times (or be left by Break),
+    # so control does reach the end of the routine
+    c0, c1 = e.u(0), e.u(1)
+    loops = {
+        "while-ret": ("While", c0, ("Seq", e.tag(63), ("Return",))),
+        "while-ifret": ("While", c0, ("If", c1, ("Return",), ("Seq", e.tag(64), ("Return",)))),
+        "for-ret": ("For", ("Store", "lq", ("Int", 0)), ("Bin", "Lt", ("Load", "lq"), c0), ("Store", "lq", ("Bin", "Add", ("Load", "lq"), ("Int", 1))),
+                    ("Seq", e.tag(65), ("Return",))),
+        "for-break-ret": ("For", ("Store", "lq", ("Int", 0)), ("Bin", "Lt", ("Load", "lq"), c0), ("Store", "lq", ("Bin", "Add", ("Load", "lq"), ("Int", 1))),
+                          ("Seq", ("If", c1, ("Break",)), e.tag(66), ("Return",))),
+        "for-ifret": ("For", ("Store", "lq", ("Int", 0)), ("Bin", "Lt", ("Load", "lq"), c0), ("Store", "lq", ("Bin", "Add", ("Load", "lq"), ("Int", 1))),
+                      ("If", c1, ("Return",), ("Return",))),
+    }
+    for lname, loop in loops.items():
+        f = {"params": [], "ret": "n", "body": ("Seq", e.tag(60), loop)}
+        main = ("Seq", ("Call", "f"), e.tag(61), ("Call", "g"), ("Return", ("Int", 1)))
+        out.append(("sub:trail:n:loop:%s" % lname, prog(mode, main, {"lq": {"t": "u"}}, {"f": f, "g": g}), {}))
+        # the same loop as the last statement of the main routine before its closing Return is ordinary code; as the
+        # body of a value-returning routine it is followed by the result
+        fu = {"params": [], "ret": "u", "body": ("Seq", e.tag(60), _with_values(loop), ("Int", 9))}
+        mainu = ("Seq", ("Call", "g"), ("Return", ("Bin", "Add", ("Call", "fu"), ("Int", 1))))
+        out.append(("sub:trail:u:loop:%s" % lname, prog(mode, mainu, {"lq": {"t": "u"}}, {"fu": fu, "g": g}), {}))
     return out
+
+
+def _with_values(e):
+    """Return() -> Return(Int(21)) for use inside a value-returning routine"""
+    if isinstance(e, tuple):
+        if e == ("Return",):
+            return ("Return", ("Int", 21))
+        return tuple(_with_values(c) for c in e)
+    return e
 
 
 def _replace_bare_returns(e):
